@@ -1056,7 +1056,10 @@ impl Model {
                         if verdict == Some(false) {
                             self.v("C02", "stale-cas-accepted", format!("{} of key {} with CAS {} succeeded although the current CAS is {:?}", name, wire::hex_short(&key, 16), req.cas, it.cas));
                         }
-                        let (lo, hi, tm) = self.inplace_interval(&it, Some(exp));
+                        // an update of an existing counter keeps the item's own TTL: the request's
+                        // expiration field is for creation only ("an item with TTL 0 never expires",
+                        // "last successful mutation plus its TTL")
+                        let (lo, hi, tm) = self.inplace_interval(&it, None);
                         match (base, resp.and_then(|r| r.counter())) {
                             (Some(b), got) => {
                                 let want = compute(b);
